@@ -68,6 +68,9 @@ def ensure_built():
     """incremental build of the Coq development and of the extracted driver"""
     rc, out, err = sh(['flock', os.path.join(VERIF, '.build.lock'), 'make', '-C', VERIF, 'build'], 3600)
     if rc != 0:
+        time.sleep(2.0)
+        rc, out, err = sh(['flock', os.path.join(VERIF, '.build.lock'), 'make', '-C', VERIF, 'build'], 3600)
+    if rc != 0:
         raise BrokenCheck('build failed:\n' + out[-3000:] + err[-3000:])
 
 
@@ -116,13 +119,21 @@ def proof_stage(prop, extra_files=()):
         path = os.path.join(COQ, rel)
         src = open(path).read()
         names = re.findall(r'^Print Assumptions\s+([\w\.\']+)\s*\.', src, re.M)
-        for ext in ('.vo', '.vok', '.vos', '.glob'):
-            try:
-                os.remove(path[:-2] + ext)
-            except OSError:
-                pass
+        # fresh compilation into a private output file: nothing is removed from or written to the shared build tree
+        # (another check's incremental `make build` would otherwise recompile the same .vo at the same time)
         t0 = time.time()
-        rc, out, err = sh(['coqc', '-Q', 'theories', 'PGV', '-w', '-deprecated', rel], 1800, cwd=COQ)
+        import tempfile
+        import shutil
+        tmpd = tempfile.mkdtemp(dir='/var/tmp', prefix='pgv_props_')
+        try:
+            cmd = ['coqc', '-Q', 'theories', 'PGV', '-w', '-deprecated', '-o', os.path.join(tmpd, os.path.basename(rel) + 'o'), rel]
+            rc, out, err = sh(cmd, 1800, cwd=COQ)
+            if rc not in (0, 1):
+                # abnormal end (anomaly, signal): once more, serialised with the builds
+                time.sleep(2.0)
+                rc, out, err = sh(['flock', os.path.join(VERIF, '.build.lock')] + cmd, 1800, cwd=COQ)
+        finally:
+            shutil.rmtree(tmpd, ignore_errors=True)
         if rc != 0:
             raise BrokenCheck('coqc %s failed (rc=%d):\n%s\n%s' % (rel, rc, out[-2000:], err[-3000:]))
         blocks = parse_assumptions(out)
